@@ -635,6 +635,28 @@ static void c17_long(std::mt19937_64& rng)
   }
 }
 
+// arrays whose ELEMENTS are const-qualified (reached through a pointer-to-const-array): the
+// element size in sandbox memory is still the guest size of the unqualified type
+static void c17_const(std::mt19937_64& rng)
+{
+  auto pi = sb->malloc_in_sandbox<int[4]>();
+  auto pl = sb->malloc_in_sandbox<long[3]>();
+  auto pul = sb->malloc_in_sandbox<unsigned long[3]>();
+  auto cpi = sandbox_const_cast<const int(*)[4]>(pi);
+  auto cpl = sandbox_const_cast<const long(*)[3]>(pl);
+  auto cpul = sandbox_const_cast<const unsigned long(*)[3]>(pul);
+  auto& ci = *cpi;
+  auto& cl = *cpl;
+  auto& cul = *cpul;
+  // (application-side tainted arrays of const elements cannot be constructed at all)
+  for (int w = 0; w < 2; w++) {
+    idx_sweep<decltype(ci), int16_t>(rng, ci, "V", "const int", 4, GuestSize<int>::v, w, true);
+    idx_sweep<decltype(cl), int16_t>(rng, cl, "V", "const long", 3, GuestSize<long>::v, w, true);
+    idx_sweep<decltype(cul), uint8_t>(rng, cul, "V", "const unsigned long", 3, GuestSize<unsigned long>::v, w, true);
+    idx_sweep<decltype(ci), i64>(rng, ci, "V", "const int", 4, GuestSize<int>::v, w, false);
+  }
+}
+
 static void c17_2d(std::mt19937_64& rng)
 {
   // multi-dimensional shape: outer index selects a row (row size = 4 elements)
@@ -703,6 +725,7 @@ int main(int argc, char** argv)
     c17_elem<int*>(rng, thorough);
     c17_2d(rng);
     c17_long(rng);
+    c17_const(rng);
   } else {
     return 2;
   }
